@@ -2,6 +2,7 @@
    predicate hold on the observation?, is the case non-trivial?). Generated case files import
    this module only. *)
 From NS Require Export Observe.
+From NS Require TablesOk.
 
 Definition judge_full (c : icase) : bool * bool * bool := (agree_full c, true, true).
 
@@ -43,3 +44,339 @@ Definition judge_C07_send (c : icase) : bool * bool * bool :=
       end
   | _, _ => (agree, true, false)
   end.
+
+(* ======================= whole-script judges (C01-C06, C08, C12) ======================= *)
+From NS Require Import EvalTrees.
+
+Definition obs_is_err (o : observed) (name : string) : bool :=
+  match o with ObsErr n _ _ => String.eqb n name | _ => false end.
+Definition obs_postings (o : observed) : option (list posting) :=
+  match o with ObsOk ps _ _ _ => Some ps | _ => None end.
+Definition err_result_empty (o : observed) : bool :=
+  match o with ObsErr _ e _ => e | _ => true end.
+
+(* ---------------- C04 ---------------- *)
+Definition pulled_accounts (p : pulled) : list string := nodup string_dec (map fst p).
+
+Definition debits_match (own : list posting) (asset : string) (p : pulled) : bool :=
+  forallb (fun a => debits own a asset =? pulled_of p a) (nodup string_dec (pulled_accounts p ++ map psrc own)).
+
+Definition prop_C04 (es : esend) (src : esrc) (o : observed) : bool :=
+  match es_amount es with
+  | Some n =>
+      if n <? 0 then obs_is_err o "NegativeAmountErr" else
+      match draw_exact (es_bal es) src n with
+      | Drawn _ p => match obs_postings o with Some ps => debits_match (es_own es ps) (es_asset es) p | None => false end
+      | Short _ _ => obs_is_err o "MissingFundsErr"
+      | BadAllotment => obs_is_err o "InvalidAllotmentSum"
+      end
+  | None =>
+      match drain (es_bal es) src [] with
+      | Drained _ p => match obs_postings o with Some ps => debits_match (es_own es ps) (es_asset es) p | None => false end
+      | Rejected => obs_is_err o "InvalidUnboundedInSendAll" || obs_is_err o "InvalidAllotmentInSendAll"
+      | DrainShort _ _ => obs_is_err o "MissingFundsErr"
+      | DrainBadAllotment => obs_is_err o "InvalidAllotmentSum"
+      end
+  end.
+
+(* the case is for C04 when the destination is one plain account (so that no unit is kept) *)
+Definition judge_C04 (c : icase) : bool * bool * bool :=
+  let agree := agree_postings c in
+  match eval_last_send c with
+  | Some es =>
+      match es_src es, es_dst es with
+      | Some src, Some (EDAccount _) =>
+          let nontrivial := match src with ESAccount _ _ => false | _ => true end in
+          (agree, prop_C04 es src (ic_obs c), nontrivial)
+      | _, _ => (agree, true, false)
+      end
+  | None => (agree, true, false)
+  end.
+
+(* ---------------- C05 / C06 ---------------- *)
+Definition credits_match (own : list posting) (asset : string) (cr : list (string * Z)) : bool :=
+  forallb (fun a => String.eqb a KEPT || (credits own a asset =? credited_to cr a))
+          (nodup string_dec (map fst cr ++ map pdst own))
+  && forallb (fun p => negb (String.eqb (pdst p) KEPT)) own.
+
+Definition prop_C05 (es : esend) (d : edest) (n : Z) (o : observed) : bool :=
+  match distribute d n with
+  | Some cr =>
+      match obs_postings o with
+      | Some ps =>
+          let own := es_own es ps in
+          credits_match own (es_asset es) cr
+          && (zsum (map pamt own) + credited_to cr KEPT =? n)
+      | None => false
+      end
+  | None => obs_is_err o "InvalidAllotmentSum"
+  end.
+
+(* source is @world (gives everything asked) *)
+Definition src_is_world (s : option esrc) : bool :=
+  match s with Some (ESAccount a None) => String.eqb a WORLD | _ => false end.
+
+Definition judge_C05 (c : icase) : bool * bool * bool :=
+  let agree := agree_postings c in
+  match eval_last_send c with
+  | Some es =>
+      match es_dst es, es_amount es with
+      | Some d, Some n =>
+          if (0 <=? n) && src_is_world (es_src es)
+          then (agree, prop_C05 es d n (ic_obs c), match d with EDAccount _ => false | _ => true end)
+          else (agree, true, false)
+      | _, _ => (agree, true, false)
+      end
+  | None => (agree, true, false)
+  end.
+
+(* C06: top-level allotment over distinct plain accounts: each clause's credit is its spec share *)
+Fixpoint plain_accounts (items : list (clause * ekod)) : option (list string) :=
+  match items with
+  | [] => Some []
+  | (_, ETo (EDAccount a)) :: l => match plain_accounts l with Some x => Some (a :: x) | None => None end
+  | _ => None
+  end.
+
+Definition prop_C06 (es : esend) (d : edest) (n : Z) (o : observed) : bool :=
+  prop_C05 es d n o &&
+  match d with
+  | EDAllot items =>
+      match plain_accounts items, denoted_portions (map fst items), obs_postings o with
+      | Some accts, Some ps, Some posts =>
+          if Nat.eqb (List.length (nodup string_dec accts)) (List.length accts) then
+            let own := es_own es posts in
+            forallb (fun ia => credits own (snd ia) (es_asset es) =? spec_share n ps (fst ia))
+                    (combine (seq 0 (List.length accts)) accts)
+            && (zsum (map pamt own) =? n)
+          else true
+      | _, None, _ => obs_is_err o "InvalidAllotmentSum"
+      | _, _, _ => true
+      end
+  | _ => true
+  end.
+
+Definition judge_C06 (c : icase) : bool * bool * bool :=
+  let agree := agree_postings c in
+  match eval_last_send c with
+  | Some es =>
+      match es_dst es, es_amount es with
+      | Some d, Some n =>
+          if (0 <=? n) && src_is_world (es_src es)
+          then (agree, prop_C06 es d n (ic_obs c), match d with EDAllot _ => true | _ => false end)
+          else
+            (* mirrored source form: judged by the greedy draw, which uses the same spec shares *)
+            match es_src es, d with
+            | Some (ESAllot it), EDAccount _ => (agree, prop_C04 es (ESAllot it) (ic_obs c), true)
+            | _, _ => (agree, true, false)
+            end
+      | _, _ => (agree, true, false)
+      end
+  | None => (agree, true, false)
+  end.
+
+(* ---------------- C03 ---------------- *)
+Definition prop_C03 (es : esend) (src : esrc) (d : edest) (n : Z) (o : observed) : bool :=
+  err_result_empty o &&
+  if n <? 0 then obs_is_err o "NegativeAmountErr" else
+  match draw_exact (es_bal es) src n with
+  | Short _ _ => obs_is_err o "MissingFundsErr"
+  | BadAllotment => obs_is_err o "InvalidAllotmentSum"
+  | Drawn _ _ =>
+      match distribute d n with
+      | None => obs_is_err o "InvalidAllotmentSum"
+      | Some cr =>
+          match obs_postings o with
+          | Some ps =>
+              let own := es_own es ps in
+              (zsum (map pamt own) =? n - credited_to cr KEPT)
+              && (if n =? 0 then match own with [] => true | _ => false end else true)
+          | None => false
+          end
+      end
+  end.
+
+Definition judge_C03 (c : icase) : bool * bool * bool :=
+  let agree := agree_postings c in
+  match eval_last_send c with
+  | Some es =>
+      match es_src es, es_dst es, es_amount es with
+      | Some src, Some d, Some n => (agree, prop_C03 es src d n (ic_obs c), true)
+      | _, _, _ => (agree, err_result_empty (ic_obs c), false)
+      end
+  | None => (agree, err_result_empty (ic_obs c), false)
+  end.
+
+(* ---------------- C01 / C02 / C08: whole scripts ---------------- *)
+Fixpoint esrc_leaves (s : esrc) : list (string * option Z) :=
+  match s with
+  | ESAccount a od => [(a, od)]
+  | ESInorder l => flat_map esrc_leaves l
+  | ESAllot items => flat_map (fun it : clause * esrc => esrc_leaves (snd it)) items
+  | ESCapped _ s' => esrc_leaves s'
+  end.
+
+(* per send statement: its asset and the leaves of its source; None when something does not evaluate *)
+Definition stmt_grants (vs : env) (s : stmt) : option (list (string * string * option Z)) :=
+  match s with
+  | StSend _ sv src _ =>
+      match ok_opt (eval_sent_amt vs sv) with
+      | Some (asset, _) =>
+          match eval_esrc vs asset src with
+          | Some es => Some (map (fun l : string * option Z => (fst l, asset, snd l)) (esrc_leaves es))
+          | None => None
+          end
+      | None => None
+      end
+  | _ => Some []
+  end.
+
+Fixpoint all_grants (vs : env) (ss : list stmt) : option (list (string * string * option Z)) :=
+  match ss with
+  | [] => Some []
+  | s :: ss' => match stmt_grants vs s, all_grants vs ss' with Some a, Some b => Some (a ++ b) | _, _ => None end
+  end.
+
+Definition is_unbounded (g : list (string * string * option Z)) (a : string) : bool :=
+  existsb (fun x => String.eqb (fst (fst x)) a && match snd x with None => true | _ => false end) g.
+
+(* the largest overdraft granted to [a] for [c] (0 when it is never a bounded source) *)
+Definition max_grant (g : list (string * string * option Z)) (a c : string) : Z :=
+  match flat_map (fun x : string * string * option Z =>
+           if String.eqb (fst (fst x)) a && String.eqb (snd (fst x)) c
+           then match snd x with Some k => [k] | None => [] end else []) g with
+  | [] => 0
+  | k :: ks => fold_left Z.max ks k
+  end.
+
+(* replay, checking the bound after every posting on the account it debits *)
+Fixpoint replay_bound (B : balances) (g : list (string * string * option Z)) (cur : balances) (ps : list posting) : bool :=
+  match ps with
+  | [] => true
+  | p :: ps' =>
+      let a := psrc p in let c := passet p in
+      let cur1 := bset (a, c) (bget cur a c - pamt p) cur in
+      let cur2 := bset (pdst p, c) (bget cur1 (pdst p) c + pamt p) cur1 in
+      (String.eqb a WORLD || is_unbounded g a || (Z.min (bget B a c) (- max_grant g a c) <=? bget cur2 a c))
+      (* a credit can never lower a balance, unless the amount is negative: check the receiver too *)
+      && (String.eqb (pdst p) WORLD || is_unbounded g (pdst p)
+          || (Z.min (bget B (pdst p) c) (- max_grant g (pdst p) c) <=? bget cur2 (pdst p) c))
+      && replay_bound B g cur2 ps'
+  end.
+
+Definition model_env (c : icase) : option env :=
+  match prepare (ic_prog c) (ic_vars c) (case_store c) (ic_flag c) with Ok (vs, _) => Some vs | _ => None end.
+
+Definition prop_C01 (c : icase) : bool * bool :=          (* (holds, applicable) *)
+  match ic_obs c, model_env c with
+  | ObsOk ps _ _ _, Some vs =>
+      match all_grants vs (p_stmts (ic_prog c)) with
+      | Some g => (replay_bound (ic_bal c) g (ic_bal c) ps, negb (Nat.eqb (List.length ps) 0))
+      | None => (true, false)
+      end
+  | _, _ => (true, false)
+  end.
+
+Definition judge_C01 (c : icase) : bool * bool * bool :=
+  let '(p, n) := prop_C01 c in (agree_postings c, p, n).
+
+(* C02 *)
+Fixpoint drop_while_asset (a : string) (ps : list posting) : list posting :=
+  match ps with
+  | p :: ps' => if String.eqb (passet p) a then drop_while_asset a ps' else ps
+  | [] => []
+  end.
+
+Fixpoint assets_conform (assets : list string) (ps : list posting) : bool :=
+  match assets with
+  | [] => match ps with [] => true | _ => false end
+  | a :: assets' => assets_conform assets' (drop_while_asset a ps)
+  end.
+
+Definition send_assets (vs : env) (ss : list stmt) : option (list string) :=
+  fold_right (fun s acc =>
+    match s, acc with
+    | StSend _ sv _ _, Some l => match ok_opt (eval_sent_amt vs sv) with Some (a, _) => Some (a :: l) | None => None end
+    | _, _ => acc
+    end) (Some []) ss.
+
+Definition posting_wellformed (p : posting) : bool :=
+  (0 <? pamt p) && valid_account_name (psrc p) && valid_account_name (pdst p)
+  && negb (String.eqb (psrc p) KEPT_ADDR) && negb (String.eqb (pdst p) KEPT_ADDR).
+
+Definition judge_C02 (c : icase) : bool * bool * bool :=
+  let agree := agree_postings c in
+  match ic_obs c, model_env c with
+  | ObsOk ps _ _ _, Some vs =>
+      match send_assets vs (p_stmts (ic_prog c)) with
+      | Some assets => (agree, forallb posting_wellformed ps && assets_conform assets ps, negb (Nat.eqb (List.length ps) 0))
+      | None => (agree, forallb posting_wellformed ps, false)
+      end
+  | ObsOk ps _ _ _, None => (agree, forallb posting_wellformed ps, false)
+  | _, _ => (agree, true, false)
+  end.
+
+(* C08: leading saves reserve funds *)
+Fixpoint leading_saves (vs : env) (ss : list stmt) : option (list (string * string * option Z)) :=
+  match ss with
+  | StSave _ sv a :: ss' =>
+      match ok_opt (eval_sent_amt vs sv), ok_opt (eval_as vs a expect_account), leading_saves vs ss' with
+      | Some (asset, n), Some acct, Some l => Some ((acct, asset, n) :: l)
+      | _, _, _ => None
+      end
+  | _ => Some []
+  end.
+
+Definition visible_after (b : Z) (acct asset : string) (saves : list (string * string * option Z)) : Z :=
+  fold_left (fun v s => if String.eqb (fst (fst s)) acct && String.eqb (snd (fst s)) asset
+                        then save_visible v (snd s) else v) saves b.
+
+Definition has_overdraft_leaf (g : list (string * string * option Z)) (a : string) : bool :=
+  existsb (fun x => String.eqb (fst (fst x)) a &&
+                    match snd x with None => true | Some k => negb (k =? 0) end) g.
+
+Fixpoint reserve_bound (acct asset : string) (bound : Z) (cur : balances) (ps : list posting) : bool :=
+  match ps with
+  | [] => true
+  | p :: ps' =>
+      let c := passet p in
+      let cur1 := bset (psrc p, c) (bget cur (psrc p) c - pamt p) cur in
+      let cur2 := bset (pdst p, c) (bget cur1 (pdst p) c + pamt p) cur1 in
+      (bound <=? bget cur2 acct asset) && reserve_bound acct asset bound cur2 ps'
+  end.
+
+Definition judge_C08 (c : icase) : bool * bool * bool :=
+  let agree := agree_postings c in
+  match ic_obs c, model_env c with
+  | ObsOk ps _ _ _, Some vs =>
+      match leading_saves vs (p_stmts (ic_prog c)), all_grants vs (p_stmts (ic_prog c)) with
+      | Some saves, Some g =>
+          let ok := forallb (fun s : string * string * option Z =>
+                      let acct := fst (fst s) in let asset := snd (fst s) in
+                      if String.eqb acct WORLD || has_overdraft_leaf g acct then true
+                      else
+                        let b := bget (ic_bal c) acct asset in
+                        let v := visible_after b acct asset saves in
+                        reserve_bound acct asset (b - Z.max 0 v) (ic_bal c) ps) saves in
+          let only_saves := forallb (fun s => match s with StSave _ _ _ => true | _ => false end) (p_stmts (ic_prog c)) in
+          (agree, ok && (if only_saves then Nat.eqb (List.length ps) 0 else true),
+           negb (Nat.eqb (List.length saves) 0))
+      | _, _ => (agree, true, false)
+      end
+  | _, _ => (agree, true, false)
+  end.
+
+(* C12 *)
+Definition judge_C12 (c : icase) : bool * bool * bool :=
+  let agree := agree_full c in
+  let no_panic := match ic_obs c with ObsPanic _ => false | _ => true end in
+  let typed := match ic_obs c with
+               | ObsErr n _ _ => mem_str n (map err_name TablesOk.all_errs)
+               | _ => true end in
+  let fault := match ic_fail c, ic_obs c with
+               | Some _, ObsErr n _ msg =>
+                   (String.eqb n "QueryBalanceError" || String.eqb n "QueryMetadataError") && String.eqb msg injected_failure
+               | Some _, _ => false
+               | None, _ => true
+               end in
+  (agree, no_panic && typed && err_result_empty (ic_obs c) && fault, true).
